@@ -185,3 +185,19 @@ Fixpoint run_crashy (w : world) (st : state) (n : nat) (ops : list (op * option 
   | [] => st
   | oc :: rest => run_crashy w (crash_step w st n oc) (S n) rest
   end.
+
+(* ---- histories in which every request runs under its own fault plan and may, in addition, be cut
+   short after k storage calls ---- *)
+Definition faulty_step (w : world) (st : state) (n : nat) (x : op * list (nat * fault) * option nat) : state :=
+  match x with
+  | (OpTick d, _, _) => mkState (s_store st) (s_now st + d)%Z
+  | (o, plan, None) =>
+      mkState (fst (fst (run_fault (plan_of plan) 0 (handler w n (s_now st) o) (s_store st)))) (s_now st)
+  | (o, plan, Some k) =>
+      mkState (fst (fst (run_fault_prefix_log (plan_of plan) 0 k (handler w n (s_now st) o) (s_store st)))) (s_now st)
+  end.
+Fixpoint run_faulty (w : world) (st : state) (n : nat) (ops : list (op * list (nat * fault) * option nat)) : state :=
+  match ops with
+  | [] => st
+  | x :: rest => run_faulty w (faulty_step w st n x) (S n) rest
+  end.
